@@ -130,8 +130,8 @@ class Ctx:
             return hash(obj)
         if isinstance(spec, str):
             spec = {"fn": spec, "raise": []}
-        if any(obj is self.w.U.objs[i] for i in spec.get("raise", [])):
-            raise Fault()
+        if any(obj is self.w.U.objs[i] for i in spec.get("raise", []) + spec.get("unhashable", [])):
+            raise Fault()           # the hook raises, or returns a value that cannot be a data_id
         return {"hash": hash, "name": lambda d: f"{d}", "mod7": lambda d: hash(d) % 7}[spec["fn"]](obj)
 
     def obj(self, d):
@@ -153,6 +153,8 @@ def spec_add_at(c: Ctx, ti, p, d, did, kind, before):
         return ("any",)
     if isinstance(before, dict) and position(ch, before) is None:
         return ("refuse",)
+    if isinstance(did, dict):           # an unhashable explicit data_id: refused, nothing may change
+        raise Fault()
     new_id = did if did is not None else c.calc(ti, c.w.U.objs[d])
     nd = H.sx_did(new_id)
     if any(did_of(x) == nd for x in ch):
@@ -419,6 +421,8 @@ def build_items(c, items, typed, calc):
     """nested list-of-dicts -> expected new branches (ids unknown); None if two siblings would share a data_id"""
     out = []
     for d, did, sub in items:
+        if isinstance(did, dict):
+            raise Fault()
         nd = H.sx_did(did if did is not None else calc(c.w.U.objs[d]))
         if any(did_of(x) == nd for x in out):
             return None
@@ -439,6 +443,8 @@ def spec_set_data(c: Ctx, ti, n, d, did, wc):
     node = locate(f, n)[2]
     if d is None and did is None:
         return ("refuse",)
+    if isinstance(did, dict):           # an unhashable explicit data_id
+        raise Fault()
     new_obj = None
     if d is not None and c.obj(d) != node[1][0]:
         new_obj = c.obj(d)
